@@ -84,10 +84,10 @@ example : SameStageInputs { verb := true, cap := true, digit := true } { digit :
 built with capturing groups and the one built without accept exactly the same strings (of scalar values): both are
 accepted by the model of `Regex::new`, and a string is matched in full by one iff it is by the other -/
 theorem capture_groups_same_language (env : Env) (ws : List Str) (st0 st1 : Stages)
-    (h0 : regExpFrom (cfgPlain false) env ws = .ok st0) (h1 : regExpFrom (cfgPlain true) env ws = .ok st1)
+    (h0 : regExpFrom (cfgPlain false false) env ws = .ok st0) (h1 : regExpFrom (cfgPlain true false) env ws = .ok st1)
     (hseg : ∀ w ∈ ws, SegOK env w) (hne : ∃ t ∈ ws, t ≠ []) (s : Str) (hs : ∀ c ∈ s, Scalar c) :
-    ∃ P0 P1, Spec.parse (fmtRegExp (cfgPlain false) st0.finalAst) = some (⟨false, false⟩, P0) ∧
-      Spec.parse (fmtRegExp (cfgPlain true) st1.finalAst) = some (⟨false, false⟩, P1) ∧
+    ∃ P0 P1, Spec.parse (fmtRegExp (cfgPlain false false) st0.finalAst) = some (⟨false, false⟩, P0) ∧
+      Spec.parse (fmtRegExp (cfgPlain true false) st1.finalAst) = some (⟨false, false⟩, P1) ∧
       (Spec.fullMatch false P0 s = Spec.fullMatch false P1 s) := by
   obtain ⟨P0, p0, m0⟩ := default_exact false env ws st0 h0 hseg hne s hs
   obtain ⟨P1, p1, m1⟩ := default_exact true env ws st1 h1 hseg hne s hs
@@ -97,6 +97,19 @@ theorem capture_groups_same_language (env : Env) (ws : List Str) (st0 st1 : Stag
   · exact absurd (m0.mpr (m1.mp h')) (by simp [h])
   · exact absurd (m1.mpr (m0.mp h)) (by simp [h'])
   · rfl
+
+/-- **C06 (non-ASCII escaping is presentation only — language level, all inputs without `-r`)** for every subset of
+the class options, with or without capturing groups and the case-insensitive option: the pattern built with `-e` (no
+surrogate pairs) and the one built without accept exactly the same strings of scalar values -/
+theorem escaping_same_language (cfg : Config) (hp : PlainPrintCI cfg) (env : Env) (ws : List Str)
+    (stE st0 : Stages) (hE : regExpFrom (withEsc cfg true) env ws = .ok stE)
+    (h0 : regExpFrom (withEsc cfg false) env ws = .ok st0)
+    (hseg : ∀ w ∈ storedCases cfg env ws, SegOK env w) (hne : ∃ t ∈ storedCases cfg env ws, t ≠ [])
+    (s : Str) (hs : ∀ c ∈ s, Scalar c) :
+    ∃ PE P0, Spec.parse (fmtRegExp (withEsc cfg true) stE.finalAst) = some (⟨cfg.ci, false⟩, PE) ∧
+      Spec.parse (fmtRegExp (withEsc cfg false) st0.finalAst) = some (⟨cfg.ci, false⟩, P0) ∧
+      Spec.fullMatch cfg.ci PE s = Spec.fullMatch cfg.ci P0 s :=
+  esc_same_language cfg hp env ws stE st0 hE h0 hseg hne s hs
 
 mutual
 /-- every group of a pattern carries the given flag -/
@@ -125,8 +138,8 @@ theorem groupsAll_altList (cap : Bool) (ps : List Spec.Pat) (h : ∀ p ∈ ps, P
     | nil => exact h p List.mem_cons_self
     | cons q qs => exact ⟨h p List.mem_cons_self, ih (fun x hx => h x (List.mem_cons_of_mem _ hx))⟩
 
-theorem groupsAll_subOf (cap : Bool) (outer : Nat) (e : Expr) (its : List Spec.Pat) (bd : Spec.Pat)
-    (h1 : ∀ p ∈ its, Pat.GroupsAll cap p) (h2 : Pat.GroupsAll cap bd) : ∀ p ∈ subOf cap outer e its bd, Pat.GroupsAll cap p := by
+theorem groupsAll_subOf (cap esc : Bool) (outer : Nat) (e : Expr) (its : List Spec.Pat) (bd : Spec.Pat)
+    (h1 : ∀ p ∈ its, Pat.GroupsAll cap p) (h2 : Pat.GroupsAll cap bd) : ∀ p ∈ subOf cap esc outer e its bd, Pat.GroupsAll cap p := by
   unfold subOf
   split
   · intro p hp; simp only [List.mem_singleton] at hp; subst hp; exact ⟨rfl, h2⟩
@@ -143,7 +156,7 @@ theorem groupsAll_optOf (cap : Bool) (l : List Spec.Pat) (h : ∀ p ∈ l, Pat.G
   · exact h
 
 mutual
-theorem both_groups (cap : Bool) : ∀ (e : Expr), (∀ p ∈ (e.both cap).1, Pat.GroupsAll cap p) ∧ Pat.GroupsAll cap (e.both cap).2
+theorem both_groups (cap esc : Bool) : ∀ (e : Expr), (∀ p ∈ (e.both cap esc).1, Pat.GroupsAll cap p) ∧ Pat.GroupsAll cap (e.both cap esc).2
   | .lit c => by
     have h : ∀ p ∈ (atomsOf c).map atomPat, Pat.GroupsAll cap p := by
       intro p hp; obtain ⟨x, _, rfl⟩ := List.mem_map.mp hp; cases x <;> trivial
@@ -155,39 +168,39 @@ theorem both_groups (cap : Bool) : ∀ (e : Expr), (∀ p ∈ (e.both cap).1, Pa
     simp only [Expr.both]
     exact ⟨h, groupsAll_catList cap _ h⟩
   | .cat a b => by
-    have ia := both_groups cap a
-    have ib := both_groups cap b
-    have h : ∀ p ∈ subOf cap 2 a (a.both cap).1 (a.both cap).2 ++ subOf cap 2 b (b.both cap).1 (b.both cap).2, Pat.GroupsAll cap p := by
+    have ia := both_groups cap esc a
+    have ib := both_groups cap esc b
+    have h : ∀ p ∈ subOf cap esc 2 a (a.both cap esc).1 (a.both cap esc).2 ++ subOf cap esc 2 b (b.both cap esc).1 (b.both cap esc).2, Pat.GroupsAll cap p := by
       intro p hp
       simp only [List.mem_append] at hp
       rcases hp with hp | hp
-      · exact groupsAll_subOf cap 2 a _ _ ia.1 ia.2 p hp
-      · exact groupsAll_subOf cap 2 b _ _ ib.1 ib.2 p hp
+      · exact groupsAll_subOf cap esc 2 a _ _ ia.1 ia.2 p hp
+      · exact groupsAll_subOf cap esc 2 b _ _ ib.1 ib.2 p hp
     simp only [Expr.both]
     exact ⟨h, groupsAll_catList cap _ h⟩
   | .rep e q => by
-    have ie := both_groups cap e
-    have h := groupsAll_optOf cap _ (groupsAll_subOf cap 3 e _ _ ie.1 ie.2)
+    have ie := both_groups cap esc e
+    have h := groupsAll_optOf cap _ (groupsAll_subOf cap esc 3 e _ _ ie.1 ie.2)
     simp only [Expr.both]
     exact ⟨h, groupsAll_catList cap _ h⟩
   | .alt os => by
     simp only [Expr.both]
-    exact ⟨by simp, groupsAll_altList cap _ (bothL_groups cap os)⟩
-theorem bothL_groups (cap : Bool) : ∀ (os : List Expr), ∀ p ∈ Expr.bothL cap os, Pat.GroupsAll cap p
+    exact ⟨by simp, groupsAll_altList cap _ (bothL_groups cap esc os)⟩
+theorem bothL_groups (cap esc : Bool) : ∀ (os : List Expr), ∀ p ∈ Expr.bothL cap esc os, Pat.GroupsAll cap p
   | [] => by simp [Expr.bothL]
   | o :: os => by
     intro p hp
     simp only [Expr.bothL, List.mem_cons] at hp
     rcases hp with rfl | hp
-    · exact groupsAll_catList cap _ (both_groups cap o).1
-    · exact bothL_groups cap os p hp
+    · exact groupsAll_catList cap _ (both_groups cap esc o).1
+    · exact bothL_groups cap esc os p hp
 end
 
 /-- **C06 (all or none)** in the pattern the regex parser builds from the text printed for a well-formed expression,
 every group is capturing when capturing groups are requested and none is otherwise -/
-theorem groups_all_or_none (cap : Bool) (e : Expr) (hwf : e.WF) :
-    ∃ P, Spec.parse (fmtRegExp (cfgPlain cap) e) = some (⟨false, false⟩, P) ∧ Pat.GroupsAll cap P := by
-  refine ⟨_, parse_printed cap e hwf, ?_⟩
+theorem groups_all_or_none (cap esc : Bool) (e : Expr) (hwf : e.WF) :
+    ∃ P, Spec.parse (fmtRegExp (cfgPlain cap esc) e) = some (⟨false, false⟩, P) ∧ Pat.GroupsAll cap P := by
+  refine ⟨_, parse_printed cap esc e hwf, ?_⟩
   apply groupsAll_catList
   intro p hp
   simp only [List.mem_cons, List.mem_append, List.mem_nil_iff, or_false] at hp
@@ -195,8 +208,8 @@ theorem groups_all_or_none (cap : Bool) (e : Expr) (hwf : e.WF) :
   · trivial
   · unfold topItems at hp
     split at hp
-    · simp only [List.mem_singleton] at hp; subst hp; exact ⟨rfl, (both_groups cap e).2⟩
-    · exact (both_groups cap e).1 p hp
+    · simp only [List.mem_singleton] at hp; subst hp; exact ⟨rfl, (both_groups cap esc e).2⟩
+    · exact (both_groups cap esc e).1 p hp
   · trivial
 
 end Grexv.Props.C06
